@@ -338,7 +338,9 @@ func runC19(c *Ctx) {
 	}
 	pool := []string{"", "Int8", "Int16", "Enum8('a'=1)", "Enum16('a'=1)", "Decimal(9, 2)", "Decimal32", "Decimal(10,2)", "Decimal64", "Decimal",
 		"Array(Int8)", "Array(Enum8('a'=1))", "Nullable(Int8)", "LowCardinality(String)", "DateTime", "DateTime('UTC')", "DateTime64(3)", "DateTime64(3, 'UTC')",
-		"Map(String,String)", "Map(String, String)", "Array(", "Array()", "()", "(", ")", "Array(Decimal(9,2))", "Array(Decimal32)", "Decimal32(2)", "Decimal(x)"}
+		"Map(String,String)", "Map(String, String)", "Array(", "Array()", "()", "(", ")", "Array(Decimal(9,2))", "Array(Decimal32)", "Decimal32(2)", "Decimal(x)",
+		"Tuple(String, Int64)", "Tuple(String)", "Tuple(String, Int64, UInt8)", "Tuple(Int64, String)", "Tuple(String,Int64)", "Map(String, Int64)", "Map(String, Int32)",
+		"Map(Int64, String)", "Array(Tuple(String, Int64))", "Array(Tuple(String))", ")(", "x)(", "DateTime)'UTC'(", "Enum8)('a'=1(", "Array)Int8("}
 	for len(pool) < poolN {
 		if r.Chance(75) {
 			pool = append(pool, c19WellFormed(r, leaves))
@@ -479,6 +481,40 @@ func c19InferModel(c *Ctx, t string, col *proto.ColAuto, err error, cs map[strin
 // reported type does not conflict with that call's request, and a request that fails on a fresh ColAuto must fail here too
 func c19Sequences(c *Ctx, r *Rng, leaves []string, n int) {
 	R := c.R
+	dt := []string{"DateTime64(3)", "DateTime64(9, 'UTC')", "DateTime64(0)", "DateTime64(6,'UTC')", "Array(DateTime64(3))", "Array(DateTime64(9))", "Nullable(DateTime64(1))", "Nullable(DateTime64(7))",
+		"DateTime", "DateTime('UTC')", "Enum8('a' = 1, 'b' = 2)", "Enum8('b' = 1, 'a' = 2)"}
+	leaves = append(append([]string{}, leaves...), dt...)
+	leaves = append(leaves, dt...)
+	leaves = append(leaves, dt...)
+	// directed: every ordered pair of the parameterised types on one ColAuto
+	for _, first := range dt {
+		for _, second := range dt {
+			a := new(proto.ColAuto)
+			if a.Infer(proto.ColumnType(first)) != nil {
+				continue
+			}
+			cs := map[string]any{"requests": []string{first, second}}
+			R.Case("infer-pair|"+first+"|"+second, first != second)
+			R.Count("shape:infer-pair")
+			var err error
+			if p, msg := safely(func() { err = a.Infer(proto.ColumnType(second)) }); p {
+				R.Violate(Violation{Kind: "oracle", Key: "infer-panic", What: "ColAuto.Infer panicked on a reused ColAuto: " + msg, Case: cs})
+				continue
+			}
+			fresh, ferr, _ := inferSafely(second)
+			if err != nil || ferr != nil || fresh.Data == nil {
+				continue
+			}
+			if pf, okf := c19Precision(fresh.Data); okf {
+				if pr, okr := c19Precision(a.Data); okr && pr != pf {
+					R.Violate(Violation{Kind: "oracle", Key: "infer-reused-wrong-column", What: fmt.Sprintf("after %q, the request %q succeeded on the same ColAuto but its DateTime64 column reads ticks at precision %d; a fresh ColAuto reads them at precision %d", first, second, pr, pf), Case: cs})
+				}
+			}
+			if rep := a.Data.Type(); rep.Conflicts(proto.ColumnType(second)) {
+				R.Violate(Violation{Kind: "oracle", Key: "infer-reused-wrong-column", What: fmt.Sprintf("after %q, the request %q succeeded on the same ColAuto, which holds a column reporting %q", first, second, rep), Case: cs})
+			}
+		}
+	}
 	for i := 0; i < n; i++ {
 		a := new(proto.ColAuto)
 		var hist []string
@@ -515,7 +551,17 @@ func c19Sequences(c *Ctx, r *Rng, leaves []string, n int) {
 			if !wf {
 				continue // the property speaks about well-formed types; panics were looked for above
 			}
-			_, ferr, _ := inferSafely(t)
+			fresh, ferr, _ := inferSafely(t)
+			if err == nil && ferr == nil && fresh.Data != nil && a.Data != nil {
+				// the parameters that decide how the bytes of the column are read must be the requested ones, as on a fresh
+				// ColAuto: the DateTime64 precision (ticks per second), directly and under Array / Nullable
+				if pf, okf := c19Precision(fresh.Data); okf {
+					if pr, okr := c19Precision(a.Data); okr && pr != pf {
+						R.Violate(Violation{Kind: "oracle", Key: "infer-reused-wrong-column", What: fmt.Sprintf("request %d (%q) succeeded on the reused ColAuto but its DateTime64 column reads ticks at precision %d; a fresh ColAuto reads them at precision %d", j, t, pr, pf), Case: cs})
+						break
+					}
+				}
+			}
 			if err == nil && ferr != nil {
 				R.Violate(Violation{Kind: "oracle", Key: "infer-reused-accepts-rejected", What: fmt.Sprintf("request %d (%q) fails on a fresh ColAuto (%v) but succeeded on the reused one, which holds a %T reporting %q", j, t, ferr, a.Data, a.Data.Type()), Case: cs})
 				break
@@ -606,4 +652,24 @@ func c19EnumDecode(c *Ctx, r *Rng) {
 			}
 		}
 	}
+}
+
+// precision of the DateTime64 column inside col (directly, or as the element of an Array / the value of a Nullable)
+func c19Precision(col proto.Column) (int, bool) {
+	switch v := col.(type) {
+	case *proto.ColDateTime64:
+		if !v.PrecisionSet {
+			return -1, true
+		}
+		return int(v.Precision), true
+	case *proto.ColArr[time.Time]:
+		if d, ok := v.Data.(proto.Column); ok {
+			return c19Precision(d)
+		}
+	case *proto.ColNullable[time.Time]:
+		if d, ok := v.Values.(proto.Column); ok {
+			return c19Precision(d)
+		}
+	}
+	return 0, false
 }
